@@ -17,6 +17,7 @@ C = {
  "C12": ("model_checking", KANI, "kani", "Bounded model checking of the chunk cache's directory-name and file-name parsers on arbitrary byte strings of the stated lengths: no panic, parsed items have non-empty ranges.", "fmt stubs; memory-safety checks off (safe Rust, base64 decode); histories of put/get/evict/re-open and CRC detection outside."),
  "C13": ("model_checking", MA, "mirsym", "Inductive step over DiskCache::put_impl's MIR from an arbitrary tracked state (including an item equal to the one being inserted - the state only the duplicate-put interleaving reaches): every item leaving the tracked vector is subtracted with exactly its length; counters change by exactly the removed / inserted amounts around eviction; eviction is asked for exactly the new item's length.", "Calls havocked (incl. writes through &mut arguments); eviction loop and re-open accounting outside; the interleaving itself is replayed natively through a guarded schedule point."),
  "C14": ("model_checking", MA + "; " + MB, "mirsym", "Inductive step of FileDeduper::process_chunks' result loop from an arbitrary state: chunks/bytes counted == consumed, new + deduped == total on every path; merge_in is a field-wise sum; (Mode B) the session metrics are read out only after all upload tasks were joined.", "Dedup answers truthful (C05); calls havocked; the store's own transmitted-byte count taken as given."),
+ "C15": ("model_checking", MA + "; " + MB, "mirsym", "Inductive step from an arbitrary state: a chunk appended to the open xorb without cutting first keeps it within MAX_XORB_BYTES / MAX_XORB_CHUNKS (any configured values); the session merges aggregators only when both sums are within the limits; an empty xorb never reaches the store (Mode B). Chunk-header field limits are decided under C07.", "Vec::len / num_bytes / num_chunks report true sizes; a single chunk fits a xorb (C04/C07); 'no unresolved xorb reference' needs the infeasible FileDeduper harness and is outside."),
  "C16": ("other", MB, "mirsym", "Solver-decided ordering / error-propagation obligations over the session's async functions: shards are uploaded only after the xorb join loop drained; the result of every store, shard and join call is consumed by the next `?`; no upload or registration follows an error exit.", "JoinSet and `?` contracts assumed; no fault-injected run (Kani cannot compile tokio); unsat sound because paths are over-approximated."),
  "C17": ("model_checking", MA, "mirsym", "The per-term planning arithmetic of both download writers (MIR, chained for 4 terms quick / 6 thorough) equals 'slice of the concatenated term data' for all 64-bit offsets/ranges and u32 term lengths, is panic free under the server contract, and both writers agree.", "Server contract on the plan; get_one_term returns unpacked_length bytes; disjoint positioned writes commute; cache on/off equivalence and network outside."),
  "C18": ("model_checking", MA, "mirsym", "Load and delete decisions of keyed shards as functions of (expiry, now, grace) for all 64-bit values, from the MIR of the scan closures: loaded only when not past expiry, deleted only after the grace period, never both at one instant.", "tracing / Arc::deref havocked; keyed export and manager collections outside (export harnesses did not fit the time budget)."),
@@ -28,7 +29,6 @@ NA = {
  "C06": "blake3 is C/asm FFI that Kani cannot execute; the pure-Rust construction harnesses (MerkleMemDB vs cas_node_hash) were not reached within the time budget",
  "C09": "interpolation search (f64 arithmetic bit-blasted) and shard serialization through Cursor/Vec were not reached within the time budget after the CBMC cost of Vec/io::copy became clear",
  "C10": "set operations over serialized shards (Cursor + Vec writers) exceed what CBMC finished here; the consolidation ordering part is decided under C19",
- "C15": "limits are enforced inside FileDeduper/DataAggregator whose Kani harness is infeasible (see C01); chunk header limits are decided under C07",
  "C20": "interleavings of tokio tasks (Notify, async Mutex, spawn, panics): Kani does not model concurrency and ICEs on tokio; mirsym path obligations cannot express lost wake-ups",
 }
 
